@@ -17,7 +17,7 @@ EXPLANATION = ("Decided from the call graph and MIR of BasicCreator: (R1) in eve
                "refers to; (R4) close_file takes Box<Self>: a write after persist does not type-check (compile-fail witness with a "
                "compiling twin). POSIX rename atomicity is assumed; behaviour at every crash offset is not explored."
                " (R5) every BufWriter built in the creator reaches flush()/into_inner() on every successful path (an error in the implicit flush of Drop is discarded)."
-               ' Added later: (R6) errors of the worker threads reach finalize; (R7) every direct Write::write uses the count it returns or hands the Result back.')
+               ' Added later: (R6) errors of the worker threads reach finalize; (R7) every direct Write::write uses the count it returns or hands the Result back. (R8) a Result produced inside a loop of the creator is inspected in the turn that made it, never only after the loop.')
 ASSUMPTIONS = ["rename(2) is atomic within a file system; crash = process death (no fsync needed)", "tempfile::NamedTempFile::persist renames over the destination",
                "the call graph over-approximates dynamic dispatch (all impls of a trait method)"]
 
@@ -344,7 +344,61 @@ def r7_no_partial_write_accepted(cx, rule="R7"):
     cx.ob(rule, rule + "/direct-writes", True, "(creator)", "%d direct calls of Write::write in the creators" % n, trivial=True)
 
 
+def r8_an_error_is_not_overwritten_by_a_later_success(cx):
+    """'if an I/O error occurs at any point the destination does not hold an incomplete container': the error of a
+    step that is repeated (one cluster, one pack, one block per turn of a loop) is looked at in the turn that produced it
+    -- `?`, a match, a combinator. A Result that is only stored in a variable inside the loop and read after the loop
+    reports the last turn alone: an earlier failure is overwritten by a later success and creation goes on to rename."""
+    F = cx.F
+    n = 0
+    bad = []
+    for f in F.live_fns:
+        if "blocks" not in f or not re.search(r"creator::|^bases::write|tools::", f["name"]):
+            continue
+        b = None
+        for i, blk in enumerate(f["blocks"]):
+            t = blk["t"]
+            if blk.get("cleanup") or t["k"] != "call":
+                continue
+            ty = (t["func"].get("c") or {}).get("ty", "")
+            if not re.search(r"-> std::result::Result<.*(bases::types::error::Error|std::io::Error)>( \{|$)", ty):
+                continue
+            b = b or F.body(f)
+            after = b.reach_after(i)
+            if i not in after:
+                continue       # not in a loop
+            n += 1
+            loop = {x for x in after if i in b.reach_after(x)} | {i}
+            T = b.forward_locals({t["dest"]["l"]}, through_calls=False)
+            inside = outside = 0
+            for x in range(b.n):
+                if b.is_cleanup(x):
+                    continue
+                tt = b.term(x)
+                ops = []
+                if tt["k"] == "call" and x != i:
+                    ops = tt["args"]
+                elif tt["k"] == "switch":
+                    ops = [tt["op"]]
+                hit = any(op_base_local(o) in T for o in ops)
+                hit = hit or (tt["k"] == "return" and 0 in T and x not in loop)
+                if hit:
+                    if x in loop:
+                        inside += 1
+                    else:
+                        outside += 1
+            if outside and not inside:
+                bad.append((f, t.get("ln"), callee_str(t).split("::<")[0]))
+    for f, ln, what in bad:
+        cx.ob("R8", "R8/%s/result-read-after-the-loop" % re.sub(r"<.*?>", "", f["name"]).split("::")[-1], False, f,
+              "the Result of %s (line %s) is produced in a loop and only read after it: the failure of one turn is overwritten by the next" % (what, ln), ln=ln)
+    if n < 20:
+        raise AnchorLost("fallible calls in loops of the creator: %d" % n)
+    cx.ob("R8", "R8/errors-are-read-in-the-turn-that-made-them", not bad, "(creator)", "%d fallible calls inside loops of the creator: each result is inspected inside its loop" % n)
+
+
 RULES = [
+    ("R8", r8_an_error_is_not_overwritten_by_a_later_success, 1),
     ("R7", r7_no_partial_write_accepted, 1),
     ("R6", r6_thread_errors_reach_finalize, 1),
     ("R5", r5_buffered_writes_are_flushed, 3),
